@@ -41,20 +41,15 @@ Print Assumptions C10_ttl_remaining_seconds.
 
 (* ---- (3) expired data is dead, for every command and every later trace ----
    A key whose header is expired at the command's timestamp is indistinguishable from an absent key: every command
-   (DEL excepted: open finding) gives the same reply as on the store from which the key's header entry was erased
-   - a read-modify-write starts from empty - and the two resulting stores answer every later trace alike. *)
-Theorem C10_expired_like_absent_step_partial : forall s ts c t k h,
-  Inv s -> ts <> 0 -> is_del c = false -> hdr_of s t k = Some h -> is_expired Compact h ts = true ->
+   gives the same reply as on the store from which the key's header entry was erased - a read-modify-write starts
+   from empty - and the two resulting stores answer every later trace alike. *)
+Theorem C10_expired_like_absent_step : forall s ts c t k h,
+  Inv s -> ts <> 0 -> hdr_of s t k = Some h -> is_expired Compact h ts = true ->
   snd (step Compact s ts c) = snd (step Compact (erase s t k) ts c) /\
   forall ops, Forall (op_ok (sec ts) 0) ops ->
     run (fst (step Compact s ts c)) ops = run (fst (step Compact (erase s t k) ts c)) ops.
 Proof. exact expired_like_absent_step. Qed.
-Print Assumptions C10_expired_like_absent_step_partial.
-(* full statement (no exclusion of DEL): false of the faithful model and of the code (corpus/C10/f6-del-expired.tsv) *)
-Definition C10_expired_like_absent_full : Prop := expired_like_absent_full.
-Theorem C10_expired_like_absent_full_refuted : ~ C10_expired_like_absent_full.
-Proof. exact expired_like_absent_full_refuted. Qed.
-Print Assumptions C10_expired_like_absent_full_refuted.
+Print Assumptions C10_expired_like_absent_step.
 Theorem C10_expired_like_absent_trace : forall T s t k h ops,
   Inv s -> hdr_of s t k = Some h -> hdead T h -> Forall (op_ok T 0) ops -> run s ops = run (erase s t k) ops.
 Proof. exact expired_like_absent_trace. Qed.
@@ -71,21 +66,17 @@ Proof. exact run_R. Qed.
 Print Assumptions C10_dead_content_noninterference.
 
 (* ---- (4) background compaction is invisible, for all traces and all interleavings ----
-   [wf]: timestamps non-zero, no DEL, after a compaction with clock csec no later time is more than the lazy
-   threshold behind csec and no later write re-uses the generation number of a dropped element. *)
+   [wf]: timestamps non-zero, after a compaction with clock csec no later time is more than the lazy threshold
+   behind csec and no later write re-uses the generation number of a dropped element. *)
 Theorem C10_bg_step_invisible_partial : forall ops s, Inv s -> wf ops -> run s ops = run s (strip ops).
 Proof. exact bg_invisible. Qed.
 Print Assumptions C10_bg_step_invisible_partial.
-(* full statement ([wf_weak]: DEL allowed, generation numbers may repeat): false of the faithful model and of the code *)
+(* full statement ([wf_weak]: generation numbers may repeat, i.e. equal raft timestamps): false of the faithful model
+   and of the code (open finding; corpus/C10/f3-generation-collision.tsv) *)
 Definition C10_bg_step_invisible_full : Prop := bg_invisible_full.
 Theorem C10_bg_step_invisible_full_refuted : ~ C10_bg_step_invisible_full.
 Proof. exact bg_invisible_full_refuted. Qed.
 Print Assumptions C10_bg_step_invisible_full_refuted.
-Theorem C10_bg_needs_fresh_generations_refuted :
-  wf_weak w_gen_ops /\ Forall (fun o => match o with OW _ c => is_del c = false | _ => True end) w_gen_ops /\
-  run empty_store w_gen_ops <> run empty_store (strip w_gen_ops).
-Proof. exact bg_invisible_needs_fresh_generations. Qed.
-Print Assumptions C10_bg_needs_fresh_generations_refuted.
 (* what the filter allows to drop: only entries expired for longer than the lazy threshold, and element keys that
    do not belong to the live generation of their collection *)
 Theorem C10_filter_drops_only_garbage : forall s csec it,
